@@ -69,21 +69,33 @@ for root, _, files in os.walk(os.path.join(repo, "src")):
         if f.endswith(".rs"):
             txt, n = rewrite(txt); total += n
         put(os.path.join(dest, rel), txt); keep.add(rel)
-put(os.path.join(dest, "build.rs"), open(os.path.join(repo, "build.rs")).read()); keep.add("build.rs")
-put(os.path.join(dest, "Cargo.toml"), '''[package]
-name = "fst"
-version = "0.4.7"
-edition = "2018"
-build = "build.rs"
+if os.path.exists(os.path.join(repo, "build.rs")):
+    put(os.path.join(dest, "build.rs"), open(os.path.join(repo, "build.rs")).read()); keep.add("build.rs")
 
-[features]
-default = []
-levenshtein = ["utf8-ranges"]
+# The manifest is derived from the repository's own: package, features,
+# dependencies, build-dependencies and lib sections are kept (a change may add
+# or drop a dependency or the build script); workspace, patch, profile,
+# dev-dependency and metadata sections are dropped; shuttle is added.
+def derive_manifest(text):
+    out, keep_sec, saw_deps = [], True, False
+    for line in text.split("\n"):
+        m = re.match(r"^\s*\[+([^\]]+)\]+\s*$", line)
+        if m:
+            sec = m.group(1).strip()
+            keep_sec = (sec == "package" or sec == "features" or sec == "lib"
+                        or sec == "dependencies" or sec.startswith("dependencies.")
+                        or sec == "build-dependencies" or sec.startswith("build-dependencies.")
+                        or sec.startswith("target."))
+            if sec == "dependencies":
+                saw_deps = True
+                out.append(line); out.append('shuttle = "0.9.3"'); continue
+        if keep_sec:
+            out.append(line)
+    if not saw_deps:
+        out += ["", "[dependencies]", 'shuttle = "0.9.3"']
+    return "\n".join(out) + "\n"
 
-[dependencies]
-utf8-ranges = { version = "1.0.4", optional = true }
-shuttle = "0.9.3"
-''')
+put(os.path.join(dest, "Cargo.toml"), derive_manifest(open(os.path.join(repo, "Cargo.toml")).read()))
 keep.add("Cargo.toml")
 # drop files that no longer exist in the repository
 for root, _, files in os.walk(dest):
